@@ -312,7 +312,7 @@ def cell_body(trials, c):
 from functools import partial  # noqa: E402
 
 PROP = Prop("C18", [
-    Test("cells", partial(cell_body, 100), quick=480, thorough=0, shard_size=30),
+    Test("cells", partial(cell_body, 100), quick=960, thorough=0, shard_size=30),
     Test("cells_300", partial(cell_body, 300), quick=0, thorough=2000, shard_size=60),
 ], RULE, level="exploration", assumptions=[
     "statistical decision rule: one-sided exact binomial test at alpha = 1e-6 per cell against the stated 0.99 rejection probability; "
